@@ -108,6 +108,8 @@ type vwNodeCfg struct {
 	// with lateKeys: one gossip round runs while the keyring is still empty (whatever the node works out on
 	// its first round must not outlive the key installation)
 	gossipFirst bool
+	// with lateKeys: one plaintext packet is received while the keyring is still empty
+	ingestFirst bool
 	depth       int // HandoffQueueDepth (0: effectively unbounded)
 	secret      bool // the first key is given as Config.SecretKey instead of a keyring
 	name     string
@@ -169,6 +171,15 @@ func vwNode(c vwNodeCfg) (*Memberlist, *vwTap, *vwUser) {
 	}
 	if c.gossipFirst {
 		m.gossip()
+	}
+	if c.ingestFirst && len(lateKeys) > 0 {
+		pb, _ := encode(pingMsg, &ping{SeqNo: 1, Node: c.name}, false)
+		pkt := pb.Bytes()
+		if c.label != "" {
+			pkt, _ = AddLabelHeaderToPacket(pkt, c.label)
+		}
+		m.ingestPacket(pkt, &net.UDPAddr{IP: net.IP{10, 0, 0, 9}, Port: 7946}, time.Now())
+		tap.take()
 	}
 	for _, k := range lateKeys {
 		if err := m.config.Keyring.AddKey(k); err != nil {
@@ -257,11 +268,17 @@ func vwCollectDecomp(buf []byte, depth int, out *[][]int64) {
 	}
 	switch messageType(buf[0]) {
 	case compoundMsg:
-		_, parts, err := decodeCompoundMessage(buf[1:])
-		if err == nil {
-			for _, p := range parts {
-				vwCollectDecomp(p, depth-1, out)
+		// this helper only collects decompression tables for the model; if the library's splitter panics on
+		// these bytes that is for the receiver run to show, not for the helper to die of
+		var parts [][]byte
+		func() {
+			defer func() { _ = recover() }()
+			if _, ps, err := decodeCompoundMessage(buf[1:]); err == nil {
+				parts = ps
 			}
+		}()
+		for _, p := range parts {
+			vwCollectDecomp(p, depth-1, out)
 		}
 	case compressMsg:
 		body := buf[1:]
@@ -308,6 +325,16 @@ func (rx *vwRx) feed(pkt []byte) (obs [][]int64, panicked bool) {
 			}
 		}()
 		rx.m.ingestPacket(pkt, vwFrom, time.Now())
+	}()
+	// the next datagram arrives before anybody has looked at the hand-off queues: a compressed acknowledgement
+	// for a number nobody waits for (no effect of its own).  What the first packet queued must not change.
+	func() {
+		defer func() {
+			if recover() != nil {
+				panicked = true
+			}
+		}()
+		rx.m.handleCompressed(vwChaser(), vwFrom, time.Now())
 	}()
 	_, dsts := rx.tap.take()
 	for _, d := range dsts {
@@ -373,6 +400,19 @@ func (rx *vwRx) feed(pkt []byte) (obs [][]int64, panicked bool) {
 	}
 	obs = append(obs, inl...)
 	return obs, panicked
+}
+
+var vwChaserBuf []byte
+
+func vwChaser() []byte {
+	if vwChaserBuf == nil {
+		cb, err := compressPayload(vwEnc(ackRespMsg, &ackResp{SeqNo: 0xfffffff0, Payload: bytes.Repeat([]byte{0xc5}, 700)}), false)
+		if err != nil {
+			panic(err)
+		}
+		vwChaserBuf = cb.Bytes()[1:]
+	}
+	return vwChaserBuf
 }
 
 // ---- message generation ----
@@ -499,6 +539,9 @@ func vwGenuine(r *vfRng, forceEnc bool) *vwSent {
 		rk[0], rk[1] = rk[1], rk[0] // receiver's primary differs; sender's key is installed
 	}
 	rc := vwNodeCfg{name: "rcv", label: label, keys: rk, vout: true, vin: true, pv: pv}
+	if len(rk) > 0 && r.chance(30) {
+		rc.lateKeys, rc.ingestFirst = true, true
+	}
 	if len(keys) > 0 && !s.vout {
 		rc.vin = false
 	}
@@ -909,6 +952,21 @@ func vwHostile(r *vfRng, st *vfStats) []vfCase {
 	}
 	cp = append(cp, bytes.Repeat([]byte{byte(userMsg)}, r.n(40))...)
 	add(33, cp)
+	// 37: a well-formed compound message cut at every offset of its count byte, length table and first bytes
+	{
+		var parts [][]byte
+		for i, np := 0, 1+r.n(3); i < np; i++ {
+			parts = append(parts, vwOneMsg(r))
+		}
+		raw := makeCompoundMessage(parts).Bytes()
+		for k := 0; k <= 2+2*len(parts)+2 && k <= len(raw); k++ {
+			pkt := append([]byte(nil), raw[:k]...)
+			if rc.label != "" && !rc.skip {
+				pkt, _ = AddLabelHeaderToPacket(pkt, rc.label)
+			}
+			add(37, pkt)
+		}
+	}
 	// compress wrapper around a compound around a compress wrapper ...
 	inner := vwOneMsg(r)
 	for d := 0; d < 1+r.n(5); d++ {
@@ -937,14 +995,24 @@ func vwHostile(r *vfRng, st *vfStats) []vfCase {
 }
 
 // budget: piggy-backing on pings/acks and a gossip round, from a full queue
+var vwBudgetPadded bool
+
 func vwBudget(r *vfRng, st *vfStats) vfCase {
 	udp := r.pick([]int{300, 576, 1400, 1400, 9000})
+	if r.chance(40) {
+		// any size: the worst-case padding of the block-padded encryption version depends on the size modulo 16
+		udp = 300 + r.n(1200)
+	}
 	label := vwLabels[r.pick([]int{0, 1, 2, 5})]
 	var keys []int
 	if r.chance(65) {
 		keys = []int{1 + r.n(3)}
 	}
 	pv := uint8(r.pick([]int{1, 2, 5}))
+	if vwBudgetPadded {
+		// the block-padded encryption version, a full queue, any packet size
+		keys, pv, udp = []int{1 + r.n(3)}, 1, 300+r.n(1200)
+	}
 	// the two verification flags are independent (a key roll-out runs with outgoing on, incoming off)
 	s := vwNodeCfg{name: "snd", label: label, keys: keys, vout: !r.chance(20), vin: !r.chance(40), pv: pv, compress: r.chance(30), udp: udp}
 	if len(keys) > 0 && r.chance(35) {
@@ -962,6 +1030,9 @@ func vwBudget(r *vfRng, st *vfStats) vfCase {
 	sm.broadcasts.Reset()
 	// queued membership broadcasts: unique payloads carrying an id
 	nb := r.pick([]int{0, 5, 40, 300})
+	if vwBudgetPadded {
+		nb = 300
+	}
 	id := int64(1)
 	want := map[string]int64{}
 	for i := 0; i < nb; i++ {
@@ -1100,6 +1171,18 @@ func TestVfWire(t *testing.T) {
 			}
 			time.Sleep(3 * time.Hour)
 		})
+	}
+	if p := vfPropEnv(); p == "" || p == "C11" {
+		// the packet budget under the block-padded encryption version: the worst case needs the packet size, the
+		// label length and the fill to line up, so it gets its own stream of cases
+		vwBudgetPadded = true
+		for i := 0; i < vfEnvInt("VF_BUDGET_PADDED", 2*n); i++ {
+			synctest.Test(t, func(t *testing.T) {
+				cases = append(cases, vwBudget(r, st))
+				time.Sleep(3 * time.Hour)
+			})
+		}
+		vwBudgetPadded = false
 	}
 	sel := map[string]string{"C11": "11", "C12": "12", "C13": "13", "C14": "14", "C15": "15", "C16": "16"}[vfPropEnv()]
 	if sel == "" {
